@@ -26,14 +26,29 @@ SITES = []
 RULE = ("forecast/observation/weight arrays of 1-14 pairs in 1-3-d shapes, forecasts from 1-5 levels (heavy ties), observations on the grid k/2, "
         "NaN injected in any of the three arrays, weights from {1/2,1,2,3}, functional mean / quantile (dyadic levels) / seven custom solvers, numpy and "
         "xarray containers (dims transposed, coordinates shuffled), integer dtype; integer-valued pairs with fcst / obs / weight held independently in "
-        "int64 / int32 / int16 / float32 arrays (numpy and xarray) plus a deterministic dtype corpus; bootstrap cases replay np.random.seed; a separate malformed "
-        "stream covers every _iso_arg_checks branch. A case is distinct by the hash of (function, inputs, options), non-trivial when the fit has >= 2 pairs")
-ASSUMPTIONS = ["inputs are finite or NaN (no infinities)", "custom solvers are deterministic functions of the block's (observation, weight) sequence",
+        "int64 / int32 / int16 / uint8 / uint16 / uint32 / uint64 / float32 arrays (numpy and xarray; unsigned values also near the top of the type's range) "
+        "plus a deterministic dtype corpus; +inf / -inf as VALID data: forecasts (every functional, numpy / xarray / bootstrap), observations where the "
+        "functional defines the result (solvers max / min, quantile blocks that read finite order statistics only, mean with infinities of one sign), "
+        "weights for solvers that ignore them; bootstrap cases replay np.random.seed; a separate malformed stream covers every _iso_arg_checks branch "
+        "incl. the dtype checks. A case is distinct by the hash of (function, inputs, options), non-trivial when the fit has >= 2 pairs")
+ASSUMPTIONS = ["an infinite observation is inside the domain only where the functional defines the block values: solvers max / min, quantile blocks whose "
+               "interpolation reads finite order statistics (np.quantile returns NaN otherwise), the mean with infinities of one sign; bootstrap bands "
+               "with infinite observations are outside (see docs/C15.md)",
+               "custom solvers are deterministic functions of the block's (observation, weight) sequence",
                "bootstrap resampling uses numpy's global RNG: np.random.randint(0, n, n) per bootstrap, replayed by the harness from the same seed"]
 TRUSTED = ["scipy.optimize.isotonic_regression, np.quantile, np.interp (scipy interp1d), np.lexsort, np.unique: modelled, tied by correspondence only",
            "numpy global RNG (bootstrap): observed, not modelled"]
 
+# counters every complete run must have incremented: one per predicate family / input class (core.run_check reports a family
+# that silently never ran)
+EXPECT_COUNTS = ["known_corpus", "dtype_corpus", "pav_sequences", "functional:mean", "functional:quantile", "functional:solver:", "weighted", "unweighted",
+                 "with_nan", "fit:ok", "dtype:fcst:int", "dtype:fcst:uint", "dtype:fcst:float32", "dtype:obs:uint", "dtype:weight:uint", "inf:fcst",
+                 "inf:obs:max-min", "inf:obs:quantile", "inf:obs:mean-one-sided", "inf:weight", "relation:inf-standin", "relation:nan-deleted",
+                 "relation:permuted", "oracle_fit_cases", "xarray", "xarray:typed", "xarray:inf-fcst", "bootstrap", "bootstrap:inf-fcst", "nanquantile", "nanquantile:infinite-values",
+                 "malformed:", "malformed:dtype:"]
+
 NAN = float("nan")
+INF = float("inf")
 FINDING_INT = "integer-obs-truncated"
 
 
@@ -62,7 +77,8 @@ def py_solver(name, p=None):
         return float(np.sum(y if w is None else w * y) / len(y))
 
     def quant(y, w=None):
-        return float(np.quantile(y, float(p)))
+        with np.errstate(invalid="ignore"):
+            return float(np.quantile(y, float(p)))
 
     def const(y, w=None):
         return float(p)
@@ -145,28 +161,45 @@ def kwargs(functional, solver, q, w):
     return kw
 
 
-# storage dtypes (signed integers and float32; unsigned / bool are out of scope: numpy wraps `-obs` there)
-DTYPES = ["int64", "int32", "int16", "float32", "float64"]
+# storage dtypes: signed and UNSIGNED integers, float32.  The function only sorts, compares and averages after casting fcst and
+# obs to float64 (/repo ad3fbe5, 3166ae9), so the result must not depend on the storage type of the numbers.  bool / str / complex /
+# object are refused (malformed stream).
+UNSIGNED = ("uint8", "uint16", "uint32", "uint64")
+DTYPES = ["int64", "int32", "int16", "float32", "float64", "uint8", "uint16", "uint32", "uint64"]
+# the top of each unsigned type's range (a cast to the signed type of the same width, or `-x`, wraps there); 2**40 for uint64: the
+# values AND every weighted sum of up to 14 of them (weights <= 4) stay below 2**53, i.e. exact in binary64
+UTOP = {"uint8": 255, "uint16": 65535, "uint32": 4294967295, "uint64": 2 ** 40}
+
+
+def typed_offset(rng, dtype, span):
+    """unsigned storage: values start at 0, or (30 %) end at the top of the type's range"""
+    if dtype in UNSIGNED and rng.random() < 0.3:
+        return float(UTOP[dtype] - span)
+    return 0.0
 
 
 def gen_typed_pairs(rng, nmax=14):
-    """integer-valued pairs with heavy ties; fcst, obs and weight get a storage dtype each, independently; NaN only where the
-    dtype can hold it"""
+    """integer-valued pairs with heavy ties; fcst, obs and weight get a storage dtype each, independently (signed / unsigned
+    integers, float32, float64); values are non-negative where the dtype is unsigned; NaN only where the dtype can hold it"""
     n = rng.randint(1, nmax)
-    levels = sorted({rng.randint(-6, 8) for _ in range(rng.randint(1, 4))})
-    f = [float(rng.choice(levels)) for _ in range(n)]
-    r = rng.random()
-    if r < 0.3:
-        o = [float(rng.randint(0, 4)) for _ in range(n)]
-    elif r < 0.5:
-        o = [float(rng.randint(0, 1)) for _ in range(n)]
-    else:
-        o = [float(rng.randint(-8, 8)) for _ in range(n)]
-    w = [float(rng.choice([1, 1, 2, 3, 4])) for _ in range(n)] if rng.random() < 0.5 else None
+    weighted = rng.random() < 0.5
     while True:
         dts = [rng.choice(DTYPES) for _ in range(3)]
-        if any(d != "float64" for d in (dts if w is not None else dts[:2])):
+        if any(d != "float64" for d in (dts if weighted else dts[:2])):
             break
+    uf, uo = dts[0] in UNSIGNED, dts[1] in UNSIGNED
+    off = typed_offset(rng, dts[0], 8)
+    levels = sorted({rng.randint(0 if uf else -6, 8) for _ in range(rng.randint(1, 4))})
+    f = [off + float(rng.choice(levels)) for _ in range(n)]
+    r = rng.random()
+    off = typed_offset(rng, dts[1], 16)
+    if r < 0.3:
+        o = [off + float(rng.randint(0, 4)) for _ in range(n)]
+    elif r < 0.5:
+        o = [off + float(rng.randint(0, 1)) for _ in range(n)]
+    else:
+        o = [off + float(rng.randint(0 if uo else -8, 16 if uo else 8)) for _ in range(n)]
+    w = [float(rng.choice([1, 1, 2, 3, 4])) for _ in range(n)] if weighted else None
     for arr, d in ((f, dts[0]), (o, dts[1]), (w, dts[2])):
         if arr is not None and d.startswith("float") and rng.random() < 0.3:
             for i in range(n):
@@ -198,8 +231,177 @@ def typed_kwargs(functional, solver, q, w):
 
 
 # ------------------------------------------------------------------------------------------
+# +inf / -inf as valid data.  Only a pair containing a NaN is missing.  An infinite forecast is the largest / smallest
+# explanatory value; an infinite observation is inside the domain where the functional defines the block values (max / min:
+# always; quantile: blocks whose interpolation reads finite order statistics -- np.quantile returns NaN otherwise; mean:
+# infinities of one sign); an infinite weight where the solver never reads the weights.
+# ------------------------------------------------------------------------------------------
+ORDER_SOLVERS = ("max", "min")                                                # commute with every increasing map of the observations
+WEIGHT_BLIND = ("max", "min", "first_minus_len", "quantile", "const")         # custom solvers of this harness that never read `w`
+
+
+class Undefined(Exception):
+    """np.quantile interpolates between an infinite and another order statistic: inf - inf / 0 * inf, NaN by IEEE"""
+
+
+def o_quantile(level):
+    """exact linear-interpolation quantile; Undefined where numpy's lerp reads an infinite order statistic"""
+    def sv(y):
+        srt = sorted(y)
+        pos = (len(srt) - 1) * Fraction(level)
+        lo = pos.numerator // pos.denominator
+        hi = min(lo + 1, len(srt) - 1)
+        if np.isinf(float(srt[lo])) or np.isinf(float(srt[hi])):
+            raise Undefined()
+        return Fraction(srt[lo]) + (Fraction(srt[hi]) - Fraction(srt[lo])) * (pos - lo)
+    return sv
+
+
+def o_solver(name, p):
+    return {"max": max, "min": min}[name] if name in ORDER_SOLVERS else o_quantile(p)
+
+
+def o_tidy(f, o, w):
+    """the documented tidy step: pairs without NaN, by forecast ascending then observation descending (stable)"""
+    rows = [(f[k], o[k], None if w is None else w[k]) for k in range(len(f))
+            if not (np.isnan(f[k]) or np.isnan(o[k]) or (w is not None and np.isnan(w[k])))]
+    rows.sort(key=lambda r: (r[0], -r[1]))
+    return rows
+
+
+def o_pav(y, sv):
+    """pool-adjacent-violators in the merge order the docstring's reference (sklearn's _inplace_contiguous_isotonic_regression)
+    prescribes, over exact values (Fractions, +-inf as floats); sv = block solver of the observations"""
+    n = len(y)
+    out = list(y)
+    target = list(range(n))
+    index = 0
+    while index < n:
+        nxt = target[index] + 1
+        if nxt == n:
+            break
+        if out[index] < out[nxt]:
+            index = nxt
+            continue
+        while True:
+            prev = out[nxt]
+            nxt = target[nxt] + 1
+            if nxt == n or prev < out[nxt]:
+                target[index] = nxt - 1
+                target[nxt - 1] = index
+                out[index] = sv(y[index:nxt])
+                if index > 0:
+                    index = target[index - 1]
+                break
+    index = 0
+    while index < n:
+        nxt = target[index] + 1
+        for k in range(index + 1, nxt):
+            out[k] = out[index]
+        index = nxt
+    return out
+
+
+def o_fit(f, o, w, name, p):
+    """exact fit for the order solvers / the quantile: ([distinct forecasts], [counts], [values]); raises Undefined"""
+    rows = o_tidy(f, o, w)
+    y = [r[1] if np.isinf(r[1]) else Fraction(float(r[1])) for r in rows]
+    fit = o_pav(y, o_solver(name, p))
+    keys, cnt, vals = [], [], []
+    for r, v in zip(rows, fit):
+        if keys and keys[-1] == r[0]:
+            cnt[-1] += 1
+            vals[-1] = v
+        else:
+            keys.append(r[0]); cnt.append(1); vals.append(v)
+    return keys, cnt, vals
+
+
+def inject_inf(ctx, rng, f, o, w, functional, solver, q, p_fcst=0.22, obs=True):
+    """in place: some forecasts / observations / weights become +-inf where that is inside the domain (see above)"""
+    n = len(f)
+    name = solver[0] if solver else functional
+    if rng.random() < p_fcst:
+        signs = rng.choice([(INF,), (-INF,), (INF, -INF)])
+        for k in rng.sample(range(n), min(n, rng.randint(1, 3))):
+            f[k] = rng.choice(signs)
+        ctx.count("inf:fcst")
+    if w is not None and solver is not None and solver[0] in WEIGHT_BLIND and rng.random() < 0.25:
+        w[rng.randrange(n)] = INF
+        ctx.count("inf:weight")
+    if obs and name in ORDER_SOLVERS + ("quantile",) and rng.random() < 0.35:
+        o0 = list(o)
+        for k in rng.sample(range(n), min(n, rng.randint(1, 2))):
+            o[k] = rng.choice([INF, -INF])
+        if name == "quantile":
+            try:
+                o_fit(f, o, w, name, q if functional == "quantile" else solver[1])
+                ctx.count("inf:obs:quantile")
+            except Undefined:
+                o[:] = o0
+                ctx.count("inf:obs:quantile:undefined-by-np.quantile(left finite)")
+        else:
+            ctx.count("inf:obs:max-min")
+    if obs and functional == "mean" and rng.random() < 0.3:
+        sign = rng.choice([INF, -INF])
+        for k in rng.sample(range(n), min(n, rng.randint(1, 2))):
+            o[k] = sign
+        ctx.count("inf:obs:mean-one-sided")
+
+
+def has_inf(xs):
+    return xs is not None and any(np.isinf(x) for x in xs)
+
+
+def standin(vals):
+    """+-inf replaced by +-m, m beyond every finite value"""
+    fin = [abs(v) for v in vals if np.isfinite(v)]
+    m = (max(fin) if fin else 0.0) + 1.0
+    return [m if v == INF else (-m if v == -INF else v) for v in vals], m
+
+
+def unstand(arr, m):
+    return np.array([INF if v == m else (-INF if v == -m else v) for v in np.asarray(arr, float)])
+
+
+def inf_standin_relation(ctx, M, res, f, o, w, functional, solver, q, shape, case):
+    """relation between public calls: pairs whose forecast is +-inf are pairs at a forecast beyond all finite ones (the fit depends
+    on the forecasts through their order only: C15_fit_depends_on_forecast_order_only); likewise for observations under max / min /
+    finite-reading quantile blocks; an infinite weight is any positive weight for a solver that ignores the weights"""
+    name = solver[0] if solver else functional
+    o_in = has_inf(o) and name != "mean"
+    if not (has_inf(f) or o_in or has_inf(w)):
+        return
+    f2, mf = standin(f)
+    o2, mo = standin(o) if o_in else (o, None)
+    w2 = None if w is None else [1.0 if x == INF else x for x in w]
+    with np.errstate(invalid="ignore"):
+        r2 = M.isotonic_fit(np.array(f2).reshape(shape), np.array(o2).reshape(shape),
+                            **kwargs(functional, solver, q, None if w2 is None else np.array(w2).reshape(shape)))
+    ctx.case(("inf-standin", repr(case)))
+    ctx.count("relation:inf-standin")
+    v2 = unstand(r2["regression_values"], mo) if o_in else r2["regression_values"]
+    if not (np.array_equal(unstand(r2["fcst_sorted"], mf), res["fcst_sorted"]) and np.array_equal(r2["fcst_counts"], res["fcst_counts"])
+            and len(v2) == len(res["regression_values"]) and all(near(a, b) for a, b in zip(res["regression_values"], v2))):
+        ctx.violation("pairs with an infinite forecast / observation / weight are not treated as valid pairs: the fit differs from the fit with "
+                      "the infinities replaced by finite values beyond all others (mapped back)", dict(case, standin_fcst=f2, standin_obs=o2, standin_weight=w2),
+                      {"fcst_sorted": unstand(r2["fcst_sorted"], mf).tolist(), "fcst_counts": r2["fcst_counts"].tolist(), "regression_values": np.asarray(v2, float).tolist()},
+                      summary_str(res))
+
+
+# ------------------------------------------------------------------------------------------
 # comparisons
 # ------------------------------------------------------------------------------------------
+def near(a, b, tol=1e-9):
+    """two floats agree: NaN with NaN, an infinity only with itself, otherwise relative tolerance"""
+    a, b = float(a), float(b)
+    if np.isnan(a) or np.isnan(b):
+        return bool(np.isnan(a) and np.isnan(b))
+    if np.isinf(a) or np.isinf(b):
+        return a == b
+    return abs(a - b) <= tol * max(1.0, abs(b))
+
+
 def summary_matches(res, tree):
     uf, cnt, vals = tree
     return (core.close_list(res["fcst_sorted"], core.dec_nums(uf)) and [int(c) for c in res["fcst_counts"]] == [int(c) for c in cnt]
@@ -236,21 +438,23 @@ def block_check(ctx, res, f, o, w, functional, solver, q, case):
     i = 0
     while i < len(uf):
         j = i
-        while j + 1 < len(uf) and abs(vals[j + 1] - vals[i]) <= 1e-9 * max(1.0, abs(vals[i])):
+        while j + 1 < len(uf) and near(vals[j + 1], vals[i], 1e-12):
             j += 1
         sel = (fa >= uf[i]) & (fa <= uf[j])
         # a never-merged single observation keeps its value (the code copies y; the theorem assumes solver [y] = y)
         expect = float(oa[sel][0]) if int(sel.sum()) == 1 else (sv(oa[sel]) if wa is None else sv(oa[sel], wa[sel]))
-        if abs(expect - vals[i]) > 1e-9 * max(1.0, abs(expect)):
+        if not near(vals[i], expect):
             ctx.violation("a maximal constant block of the fit differs from the solver applied to the block's observations",
                           dict(case, block_forecasts=uf[i:j + 1].tolist(), block_obs=oa[sel].tolist()), expect, float(vals[i]))
         i = j + 1
     if functional == "mean" and len(oa):
-        if vals.min() < oa.min() - 1e-9 or vals.max() > oa.max() + 1e-9:
+        fin = np.abs(oa[np.isfinite(oa)])
+        tol = 1e-9 * max(1.0, float(fin.max()) if len(fin) else 1.0)                 # relative to the magnitude of the observations
+        if vals.min() < oa.min() - tol or vals.max() > oa.max() + tol:
             ctx.violation("mean fit leaves [min obs, max obs]", case, [float(oa.min()), float(oa.max())], vals.tolist())
         ww = np.ones_like(oa) if wa is None else wa
         per_pair = np.array([vals[list(uf).index(x)] for x in fa])
-        if abs(np.sum(ww * per_pair) - np.sum(ww * oa)) > 1e-9 * max(1.0, abs(np.sum(ww * oa))):
+        if not near(np.sum(ww * per_pair), np.sum(ww * oa)):
             ctx.violation("mean fit does not preserve the weighted mean", case, float(np.sum(ww * oa)), float(np.sum(ww * per_pair)))
 
 
@@ -259,6 +463,7 @@ def fit_case(ctx, M, rng, i):
     n = len(f)
     functional, solver, q = rand_functional(rng, w is not None)
     shape = rand_shape(rng, n)
+    inject_inf(ctx, rng, f, o, w, functional, solver, q, obs=functional != "mean")       # mean with infinite obs: oracle stream only (no rational model)
     intobs = rng.random() < 0.12 and not any(np.isnan(o)) and all(float(x).is_integer() for x in o)
     check_fit(ctx, M, rng, i, f, o, w, functional, solver, q, shape, intobs)
 
@@ -300,7 +505,8 @@ def check_fit(ctx, M, rng, i, f, o, w, functional, solver, q, shape, intobs, dty
         ctx.count("dtype:obs:" + do)
         if w is not None:
             ctx.count("dtype:weight:" + dw)
-    impl = core.call_impl(M.isotonic_fit, F, O, **kwargs_(functional, solver, q, W))
+    with np.errstate(invalid="ignore"):
+        impl = core.call_impl(M.isotonic_fit, F, O, **kwargs_(functional, solver, q, W))
     a = enc_args(shape, shape, None if w is None else shape, f, o, w, functional, solver, q, None, Fraction(9, 10), False)
     m = ctx.model("c15_fit", a)
     ctx.count("functional:" + (functional or "solver:" + solver[0]))
@@ -314,6 +520,9 @@ def check_fit(ctx, M, rng, i, f, o, w, functional, solver, q, shape, intobs, dty
         ctx.count("fit:" + (impl[1] if impl[0] == "err" else "ok"))
         if not (impl[0] == "err" and impl[1] == m):
             ctx.tie_fail("isotonic_fit error behaviour vs model", case, str(impl[1])[:200], str(m))
+            if impl[0] == "err" and not core.is_err(m):
+                ctx.violation("isotonic_fit raises on valid input (integer or float arrays of equal shape, positive weights, a pair without NaN)",
+                              case, "a fit", str(impl[1])[:200])
         return
     res = impl[1]
     ctx.case(case, int(np.sum(res["fcst_counts"])) >= 2)
@@ -328,9 +537,20 @@ def check_fit(ctx, M, rng, i, f, o, w, functional, solver, q, shape, intobs, dty
                 return
         ctx.tie_fail("isotonic_fit vs model", case, summary_str(res), str(m))
     else:
-        # the interpolating function: at, between and outside the forecasts
-        uf = res["fcst_sorted"]
-        xs = sorted(set([float(x) for x in uf] + [float(uf[0]) - 1, float(uf[-1]) + 0.5] + [float((a + b) / 2) for a, b in zip(uf, uf[1:])]))
+        # the interpolating function: at, between and outside the forecasts, and at -inf / +inf (not at finite points between a
+        # finite and an infinite forecast, nor between forecasts when a fitted value may be infinite: interpolation there is numpy's
+        # business and is not invariant under relabelling)
+        uf = [float(x) for x in res["fcst_sorted"]]
+        with np.errstate(invalid="ignore"):
+            xs = set(uf + [uf[0] - 1, uf[-1] + 0.5, INF, -INF] + [(a + b) / 2 for a, b in zip(uf, uf[1:])])
+
+        def askable(x):
+            if np.isnan(x):
+                return False
+            lo = max([u for u in uf if u <= x], default=None)
+            hi = min([u for u in uf if u >= x], default=None)
+            return lo is None or hi is None or lo == x or hi == x or (np.isfinite(lo) and np.isfinite(hi) and not has_inf(o))
+        xs = sorted(x for x in xs if askable(x))
         got = res["regression_func"](np.array(xs))
         mf = core.dec_nums(ctx.model("c15_func", enc_list([a, enc_nums(xs)])))
         if not core.close_list(got, mf):
@@ -341,6 +561,7 @@ def check_fit(ctx, M, rng, i, f, o, w, functional, solver, q, shape, intobs, dty
         func_at_forecasts(ctx, res, F, case)
     except Exception as ex:  # noqa: BLE001  (a broken implementation may return arrays the predicates cannot index)
         ctx.violation("result dictionary is inconsistent (" + type(ex).__name__ + ")", case, "consistent fcst_sorted / fcst_counts / regression_values", summary_str(res))
+    inf_standin_relation(ctx, M, res, f, o, w, functional, solver, q, shape, case)
     if functional == "mean":
         # exact oracles: max over j<=i of min over k>=i of the weighted average of (pooled groups | tidied items) j..k
         muf, mm, mi = ctx.model("c15_maxmin", enc_list([enc_nums(f), enc_nums(o), "none" if w is None else enc_nums(w)]))
@@ -354,6 +575,7 @@ def check_fit(ctx, M, rng, i, f, o, w, functional, solver, q, shape, intobs, dty
         r3 = M.isotonic_fit(typed([f[k] for k in valid], -1, df), typed([o[k] for k in valid], -1, do),
                             **kwargs_(functional, solver, q, None if w is None else typed([w[k] for k in valid], -1, dw)))
         ctx.case(("nan-deleted", repr(case)))
+        ctx.count("relation:nan-deleted")
         if not (np.array_equal(r3["fcst_sorted"], res["fcst_sorted"]) and np.array_equal(r3["fcst_counts"], res["fcst_counts"])
                 and np.allclose(r3["regression_values"], res["regression_values"], rtol=1e-9, atol=1e-12, equal_nan=True)):
             ctx.violation("pairs containing a NaN are not ignored: the fit differs from the fit with those pairs deleted", case, summary_str(r3), summary_str(res))
@@ -370,6 +592,7 @@ def check_fit(ctx, M, rng, i, f, o, w, functional, solver, q, shape, intobs, dty
         same = (np.allclose(r2["fcst_sorted"], res["fcst_sorted"]) and np.array_equal(r2["fcst_counts"], res["fcst_counts"])
                 and np.allclose(r2["regression_values"], res["regression_values"], rtol=1e-9, atol=1e-12))
         ctx.case(("perm", repr(case), tuple(perm), shape2))
+        ctx.count("relation:permuted")
         if not same:
             ctx.violation("fit changes when the input pairs are permuted / reshaped", dict(case, permutation=perm, shape2=list(shape2)),
                           summary_str(res), summary_str(r2))
@@ -418,13 +641,21 @@ def xarray_case(ctx, M, rng):
         # integer-valued DataArrays held in int64 / int32 / int16 / float32 (NaN only in the float ones)
         dts = [rng.choice(DTYPES) for _ in range(3)]
         nanp = [(0.1 if d.startswith("float") and rng.random() < 0.4 else 0.0) for d in dts]
-        levels = [float(rng.randint(-6, 8)) for _ in range(rng.randint(1, 4))]
+        off = typed_offset(rng, dts[0], 8)
+        levels = [off + float(rng.randint(0 if dts[0] in UNSIGNED else -6, 8)) for _ in range(rng.randint(1, 4))]
         fc = gens.rand_da(rng, sizes, values=levels, nan_p=nanp[0]).astype(dts[0])
-        ob = gens.rand_da(rng, sizes, values=list(range(-6, 7)), nan_p=nanp[1]).astype(dts[1])
+        off = typed_offset(rng, dts[1], 12)
+        ob = gens.rand_da(rng, sizes, values=[off + v for v in range(0 if dts[1] in UNSIGNED else -6, 13 if dts[1] in UNSIGNED else 7)], nan_p=nanp[1]).astype(dts[1])
         wt = gens.rand_da(rng, sizes, values=[1.0, 2.0, 3.0, 4.0], nan_p=nanp[2]).astype(dts[2]) if rng.random() < 0.5 else None
         ctx.count("xarray:typed")
+        for d in dts[:2] + ([dts[2]] if wt is not None else []):
+            if d in UNSIGNED:
+                ctx.count("xarray:typed:unsigned")
     else:
         levels = [float(Fraction(rng.randint(-6, 6), 2)) for _ in range(rng.randint(1, 4))]
+        if rng.random() < 0.25:
+            levels += list(rng.choice([(INF,), (-INF,), (INF, -INF)]))           # infinite forecasts are valid explanatory values
+            ctx.count("xarray:inf-fcst")
         fc = gens.rand_da(rng, sizes, values=levels, nan_p=0.1 if rng.random() < 0.4 else 0.0)
         ob = gens.rand_da(rng, sizes, den=2, bound=6, nan_p=0.1 if rng.random() < 0.4 else 0.0)
         wt = gens.rand_da(rng, sizes, values=[0.5, 1.0, 2.0, 3.0], nan_p=0.1 if rng.random() < 0.3 else 0.0) if rng.random() < 0.4 else None
@@ -458,6 +689,8 @@ def xarray_case(ctx, M, rng):
         ctx.case(case, False)
         if not (impl[0] == "err" and impl[1] == m):
             ctx.tie_fail("isotonic_fit[xarray] error behaviour vs model", case, str(impl[1])[:200], str(m))
+            if impl[0] == "err" and not core.is_err(m):
+                ctx.violation("isotonic_fit raises on valid xarray input (integer or float DataArrays over the same dimensions)", case, "a fit", str(impl[1])[:200])
         return
     ctx.case(case, int(np.sum(impl[1]["fcst_counts"])) >= 2)
     if not summary_matches(impl[1], m):
@@ -473,6 +706,13 @@ def xarray_case(ctx, M, rng):
 def boot_case(ctx, M, rng, i):
     f, o, w = gen_pairs(rng, nmax=9)
     functional, solver, q = rand_functional(rng, w is not None)
+    if rng.random() < 0.15:
+        # infinite forecasts in every resample: rows = fits of the resampled triples (relation between public calls); the model
+        # tie is skipped (a row is read BETWEEN resampled forecasts, and next to an infinite one that is numpy's interpolation)
+        signs = rng.choice([(INF,), (-INF,), (INF, -INF)])
+        for k in rng.sample(range(len(f)), min(len(f), rng.randint(1, 3))):
+            f[k] = rng.choice(signs)
+        ctx.count("bootstrap:inf-fcst")
     B = rng.randint(1, 7)
     conf = rng.choice([Fraction(1, 2), Fraction(3, 4), Fraction(7, 8), Fraction(9, 10), Fraction(1, 4)])
     mnn = rng.choice([1, 1, 1, 2, 3])
@@ -499,18 +739,26 @@ def check_boot(ctx, M, i, f, o, w, functional, solver, q, B, conf, mnn, seed):
     nv = int(np.sum(res["fcst_counts"]))
     np.random.seed(seed)
     sels = [np.random.randint(0, nv, nv).tolist() for _ in range(B)]
-    a = enc_args([n], [n], None if w is None else [n], f, o, w, functional, solver, q, B, conf, False)
-    m = ctx.model("c15_boot", enc_list([a, enc_list([enc_list([str(k) for k in s]) for s in sels]), str(mnn)]))
     ctx.case(case, nv >= 2)
     if i < 2:
         ctx.sample(case)
-    rows, lo, up = m
     got_rows = res["bootstrap_results"]
-    ok = len(rows) == got_rows.shape[0] and all(core.close_list(got_rows[k], core.dec_nums(rows[k])) for k in range(len(rows)))
-    ok = ok and core.close_list(res["confidence_band_lower_values"], core.dec_nums(lo)) and core.close_list(res["confidence_band_upper_values"], core.dec_nums(up))
-    if not ok:
-        ctx.tie_fail("bootstrap results / confidence band vs model (resampling replayed from the numpy seed)", case,
-                     {"rows": got_rows.tolist(), "lower": res["confidence_band_lower_values"].tolist(), "upper": res["confidence_band_upper_values"].tolist()}, str(m)[:600])
+    if has_inf(f):
+        # no model tie (see boot_case); the pairs with an infinite forecast are valid pairs: one column per valid pair
+        nvalid = len(o_tidy(f, o, w))
+        if nv != nvalid or got_rows.shape != (B, nvalid):
+            ctx.violation("bootstrap: pairs with an infinite forecast are valid pairs (one column of bootstrap_results per valid pair)", case,
+                          [B, nvalid], list(got_rows.shape))
+            return
+    else:
+        a = enc_args([n], [n], None if w is None else [n], f, o, w, functional, solver, q, B, conf, False)
+        m = ctx.model("c15_boot", enc_list([a, enc_list([enc_list([str(k) for k in s]) for s in sels]), str(mnn)]))
+        rows, lo, up = m
+        ok = len(rows) == got_rows.shape[0] and all(core.close_list(got_rows[k], core.dec_nums(rows[k])) for k in range(len(rows)))
+        ok = ok and core.close_list(res["confidence_band_lower_values"], core.dec_nums(lo)) and core.close_list(res["confidence_band_upper_values"], core.dec_nums(up))
+        if not ok:
+            ctx.tie_fail("bootstrap results / confidence band vs model (resampling replayed from the numpy seed)", case,
+                         {"rows": got_rows.tolist(), "lower": res["confidence_band_lower_values"].tolist(), "upper": res["confidence_band_upper_values"].tolist()}, str(m)[:600])
     # each bootstrap row is the fit of the resampled (fcst, obs, weight) triples, read at the tidied forecasts
     # (relation between public calls; resampling replayed from the numpy seed)
     base = M.isotonic_fit(np.array(f), np.array(o), **kwargs(functional, solver, q, None if w is None else np.array(w)))
@@ -544,6 +792,46 @@ def check_boot(ctx, M, i, f, o, w, functional, solver, q, B, conf, mnn, seed):
     again = M.isotonic_fit(np.array(f), np.array(o), **kw)
     if not (np.array_equal(again["confidence_band_lower_values"], lo_i, equal_nan=True) and np.array_equal(again["confidence_band_upper_values"], up_i, equal_nan=True)):
         ctx.violation("bootstrap bands are not reproducible for a fixed numpy seed", case, lo_i.tolist(), again["confidence_band_lower_values"].tolist())
+
+
+FINDING_NQ = "nanquantile-infinite-values"
+
+
+def o_nanquantile_col(col, quant):
+    """np.nanquantile (linear) of one column over the extended reals: the order statistic itself where the position is an
+    integer, floor * (1 - frac) + ceil * frac by IEEE otherwise; None where that is inf - inf"""
+    srt = sorted(v for v in col if not np.isnan(v))
+    if not srt:
+        return None
+    pos = (len(srt) - 1) * Fraction(quant)
+    lo = pos.numerator // pos.denominator
+    if pos == lo:
+        return srt[lo]
+    a, b = srt[lo], srt[lo + 1]
+    if np.isinf(a) or np.isinf(b):
+        return None if (np.isinf(a) and np.isinf(b) and a != b) else (a if np.isinf(a) else b)
+    return Fraction(a) + (Fraction(b) - Fraction(a)) * (pos - lo)
+
+
+def infinite_quantile_case(ctx, M, rng):
+    """bootstrap values may be infinite (an infinite observation under max / min / quantile): only NaN is missing in `_nanquantile`"""
+    r, c = rng.randint(2, 6), rng.randint(1, 3)
+    mat = [[NAN if rng.random() < 0.2 else float(Fraction(rng.randint(-8, 8), 2)) for _ in range(c)] for _ in range(r)]
+    for _ in range(rng.randint(1, 3)):
+        mat[rng.randrange(r)][rng.randrange(c)] = rng.choice([INF, -INF])
+    quant = rng.choice([Fraction(1, 4), Fraction(1, 2), Fraction(1, 20), Fraction(19, 20), Fraction(1, 8), Fraction(7, 8), Fraction(1, 3)])
+    with np.errstate(invalid="ignore"):
+        got = M._nanquantile(np.array(mat, dtype=float), float(quant))
+    case = {"fn": "_nanquantile", "arr": mat, "quant": quant}
+    ctx.case(case)
+    ctx.count("nanquantile:infinite-values")
+    for j in range(c):
+        want = o_nanquantile_col([row[j] for row in mat], quant)
+        if want is not None and not core.close(got[j], want):
+            ctx.violation("_nanquantile differs from the linear-interpolation quantile of the non-NaN values when a value is infinite "
+                          "(an infinite value is counted as missing but still sorted into the column)", dict(case, column=j), str(want), float(got[j]),
+                          finding_key=FINDING_NQ)
+            return
 
 
 def quantile_case(ctx, M, rng):
@@ -582,15 +870,31 @@ def malformed_case(ctx, M, rng):
     functional, solver, q = rand_functional(rng, w is not None)
     boot, conf = None, Fraction(9, 10)
     kind = rng.choice(["shape", "wshape", "wneg", "wzero", "functional", "qlevel", "qnone", "qweight", "bothnone", "both", "boot0", "bootneg",
-                       "conf0", "conf1", "confbig", "allnan", "ok"])
+                       "conf0", "conf1", "confbig", "allnan", "ok", "dtype"])
     F, O = np.array(f), np.array(o)
     W = None if w is None else np.array(w)
+    if kind == "dtype":
+        # entries that are not integers or floats are refused (documented ValueError); no rational model of a dtype: predicate only
+        which = rng.choice(["fcst", "obs", "weight"])
+        bad = rng.choice(["bool", "str", "complex", "object", "datetime64[s]"])
+        if which == "weight" and W is None:
+            W = np.ones(n)
+        conv = (lambda a: np.nan_to_num(a, nan=1.0).astype(bad))
+        F, O, W = (conv(F) if which == "fcst" else F), (conv(O) if which == "obs" else O), (conv(W) if which == "weight" else W)
+        case = {"fn": "isotonic_fit[malformed]", "kind": kind, "which": which, "dtype": bad, "fcst": f, "obs": o, "weight": w, "functional": functional,
+                "solver": solver, "quantile_level": q}
+        impl = core.call_impl(M.isotonic_fit, F, O, **kwargs(functional, solver, q, W))
+        ctx.case(case, False)
+        ctx.count("malformed:dtype:" + which + ":" + bad)
+        if impl != ("err", "err:ValueError"):
+            ctx.violation("documented ValueError not raised: entries of `" + which + "` are not integers or floats", case, "err:ValueError", str(impl[1])[:120])
+        return
     if kind == "shape" and n > 1:
         O = O[:-1]; osh = (n - 1,); o = o[:-1]
     elif kind == "wshape" and w is not None and n > 1:
         W = W[:-1]; wsh = (n - 1,); w = w[:-1]
     elif kind in ("wneg", "wzero") and w is not None:
-        w = list(w); w[rng.randrange(n)] = -1.0 if kind == "wneg" else 0.0; W = np.array(w)
+        w = list(w); w[rng.randrange(n)] = rng.choice([-1.0, -1.0, -INF]) if kind == "wneg" else 0.0; W = np.array(w)
     elif kind == "functional":
         functional = rng.choice(["median", "Mean", ""])
     elif kind == "qlevel":
@@ -641,36 +945,46 @@ def malformed_case(ctx, M, rng):
 # model-free predicates (exact python oracle + relations between public calls)
 # ------------------------------------------------------------------------------------------
 def o_maxmin(f, o, w):
-    """exact max-min of pooled block averages: {forecast: value} over the NaN-free pairs"""
+    """exact max-min of pooled block averages: ([forecasts], [values]) over the NaN-free pairs.  Forecasts may be +-inf (they are
+    only ordered); observations may contain infinities of ONE sign (the average of a segment holding one is that infinity)"""
     groups = {}
     for k in range(len(f)):
         if np.isnan(f[k]) or np.isnan(o[k]) or (w is not None and np.isnan(w[k])):
             continue
         wk = Fraction(1) if w is None else Fraction(float(w[k]))
-        g = groups.setdefault(Fraction(float(f[k])), [Fraction(0), Fraction(0)])
+        g = groups.setdefault(float(f[k]), [Fraction(0), Fraction(0), 0.0])
         g[0] += wk
-        g[1] += wk * Fraction(float(o[k]))
+        if np.isinf(o[k]):
+            assert g[2] in (0.0, float(o[k]))
+            g[2] = float(o[k])
+        else:
+            g[1] += wk * Fraction(float(o[k]))
     keys = sorted(groups)
     out = []
     for i in range(len(keys)):
         best = None
         for j in range(i + 1):
             sw = swy = Fraction(0)
+            inf = 0.0
             lo = None
             for k in range(j, len(keys)):
                 sw += groups[keys[k]][0]
                 swy += groups[keys[k]][1]
+                inf = inf or groups[keys[k]][2]
                 if k >= i:
-                    a = swy / sw
+                    a = inf if inf else swy / sw
                     lo = a if lo is None or a < lo else lo
             best = lo if best is None or lo > best else best
         out.append(best)
-    return keys, out
+    return [x if np.isinf(x) else Fraction(x) for x in keys], out
 
 
 def oracle_fit_case(ctx, M, rng, with_dtypes=False):
     f, o, w, dts = gen_typed_pairs(rng) if with_dtypes else (gen_pairs(rng) + (None,))
-    oracle_fit(ctx, M, rng, f, o, w, dts)
+    functional, solver, q = rand_functional(rng, w is not None)
+    if not with_dtypes:
+        inject_inf(ctx, rng, f, o, w, functional, solver, q, p_fcst=0.3)
+    oracle_fit(ctx, M, rng, f, o, w, dts, functional, solver, q)
 
 
 def oracle_fit(ctx, M, rng, f, o, w, dts, functional=None, solver=None, q=None, shape=None):
@@ -685,8 +999,12 @@ def oracle_fit(ctx, M, rng, f, o, w, dts, functional=None, solver=None, q=None, 
     if dts:
         case["dtypes"] = list(dts)
     F = typed(f, shape, df)
-    impl = core.call_impl(M.isotonic_fit, F, typed(o, shape, do),
-                          **kwargs_(functional, solver, q, None if w is None else typed(w, shape, dw)))
+    if dts:
+        for d in (df, do) + ((dw,) if w is not None else ()):
+            ctx.count("oracle:dtype:" + d)
+    with np.errstate(invalid="ignore"):
+        impl = core.call_impl(M.isotonic_fit, F, typed(o, shape, do),
+                              **kwargs_(functional, solver, q, None if w is None else typed(w, shape, dw)))
     valid = [k for k in range(n) if not (np.isnan(f[k]) or np.isnan(o[k]) or (w is not None and np.isnan(w[k])))]
     ctx.case(("oracle-fit", repr(case)), len(valid) >= 2)
     if impl[0] == "err":
@@ -704,6 +1022,15 @@ def oracle_fit(ctx, M, rng, f, o, w, dts, functional=None, solver=None, q=None, 
         if not (core.close_list(res["fcst_sorted"], keys) and core.close_list(res["regression_values"], vals)):
             ctx.violation("mean-functional fit differs from the max-min of block averages (python oracle)", case, [str(v) for v in vals],
                           res["regression_values"].tolist())
+    name = solver[0] if solver else functional
+    if not dts and name in ORDER_SOLVERS + ("quantile",) and (has_inf(f) or has_inf(o) or has_inf(w)):
+        # exact reference fit (pool-adjacent-violators over exact values) where infinities take part
+        keys, cnt, vals = o_fit(f, o, w, name, q if functional == "quantile" else solver[1])
+        if not (core.close_list(res["fcst_sorted"], keys) and [int(c) for c in res["fcst_counts"]] == cnt and core.close_list(res["regression_values"], vals)):
+            ctx.violation("fit differs from the exact pool-adjacent-violators fit of the valid pairs (infinite values are valid data)", case,
+                          {"fcst_sorted": keys, "fcst_counts": cnt, "regression_values": [str(v) for v in vals]}, summary_str(res))
+    if not dts:
+        inf_standin_relation(ctx, M, res, f, o, w, functional, solver, q, shape, case)
     if functional is not None or solver in SYMMETRIC:
         perm = list(range(n))
         rng.shuffle(perm)
@@ -770,6 +1097,7 @@ def known_cases(ctx, M):
     res = M.isotonic_fit(np.array(f), np.array(o), functional="quantile", quantile_level=0.5)
     m = ctx.model("c15_fit", enc_args([2], [2], None, f, o, None, "quantile", None, Fraction(1, 2), None, Fraction(9, 10), False))
     ctx.case(("known", "int-obs"))
+    ctx.count("known_corpus")
     if not summary_matches(res, m):
         ctx.violation("integer-typed obs: block values are truncated (each block must equal the solver applied to its observations)",
                       {"fcst": f, "obs": o, "dtype": "int", "functional": "quantile", "quantile_level": 0.5}, str(m[2]), res["regression_values"].tolist(),
@@ -779,27 +1107,45 @@ def known_cases(ctx, M):
 # repro of the repaired defect isotonic-int32-tied-fcst (/repo ad3fbe5): tied forecasts held in a 32-bit (or narrower) integer
 # array gave regression_values [nan, 2.667, 3.0] instead of [2.5, 2.667, 3.0] (scipy interp1d's integer path divides by x_hi - x_lo = 0)
 REPRO_I32 = ([2.0, 0.0, 0.0, 2.0, 3.0, 0.0], [4.0, 2.0, 0.0, 0.0, 3.0, 4.0], [2.0, 1.0, 1.0, 1.0, 2.0, 2.0])
+# repro of the repaired defect isotonic-unsigned-obs-ties (/repo 3166ae9): `-obs` in the lexsort tie ordering wrapped for unsigned
+# observations, so tied forecasts were pooled in the wrong order: fcst [.5,.5,.5,.5,.7], uint8 obs [0,1,0,1,1] fitted 1.0 at 0.5 (correct 0.5)
+REPRO_UOBS = ([0.5, 0.5, 0.5, 0.5, 0.7], [0.0, 1.0, 0.0, 1.0, 1.0], [1.0, 2.0, 3.0, 1.0, 1.0])
+# whole-percent forecasts packed as uint8, case counts as weights (uint16), one missing observation (float obs)
+PERCENT_U8 = ([10.0, 30.0, 30.0, 70.0, 90.0, 10.0, 70.0, 50.0], [0.0, 1.0, 0.0, 0.0, 1.0, 1.0, 1.0, NAN], [3.0, 1.0, 2.0, 4.0, 1.0, 1.0, 2.0, 5.0])
+# infinite forecasts (inf = "unlimited ceiling"; -inf = logit of probability 0): valid pairs at the largest / smallest forecast
+INF_CEILING = ([500.0, 1500.0, INF, 3000.0, INF, 800.0, 3000.0, 1500.0], [600.0, 1000.0, 9000.0, 2500.0, 7000.0, 900.0, NAN, 2000.0], None)
+INF_LOGIT = ([-INF, -1.0, 0.0, -INF, 2.0, INF], [0.0, 1.0, 0.0, 1.0, 1.0, 0.0], [1.0, 2.0, 1.0, 1.0, 3.0, 1.0])
+FOUR = (("mean", None, None, True), ("mean", None, None, False), ("quantile", None, Fraction(1, 2), False), (None, ("max", None), None, True))
 
 
 def dtype_corpus(ctx, M, rng, model=True):
-    """deterministic corpus: the repro in every storage dtype of fcst x (obs, weight) dtypes x functional; a regression is a VIOLATION"""
-    f, o, w = REPRO_I32
-    for df in ("int32", "int16", "int64", "float32"):
+    """deterministic corpus: the repros in every storage dtype of fcst x (obs, weight) dtypes x functional, unsigned storage, infinite
+    forecasts; a regression is a VIOLATION"""
+    runs = []
+    for df in ("int32", "int16", "int64", "float32", "uint8", "uint16", "uint32", "uint64"):
         for do, dw in (("int64", "int64"), (df, df), ("float64", "float64")):
-            for functional, solver, q, ww in (("mean", None, None, w), ("mean", None, None, None), ("quantile", None, Fraction(1, 2), None),
-                                             (None, ("max", None), None, w)):
-                if model:
-                    check_fit(ctx, M, rng, 9, list(f), list(o), None if ww is None else list(ww), functional, solver, q, (6,), False, dtypes=(df, do, dw))
-                else:
-                    oracle_fit(ctx, M, rng, list(f), list(o), None if ww is None else list(ww), (df, do, dw), functional, solver, q, (6,))
-    ctx.count("dtype_corpus", 48)
+            runs += [(REPRO_I32, (df, do, dw), fn, (6,)) for fn in FOUR]
+    for do in UNSIGNED:
+        for dw in (do, "float64"):
+            runs += [(REPRO_UOBS, ("float64", do, dw), fn, (5,)) for fn in FOUR]
+    for dw in ("uint16", "uint32", "int64"):
+        runs += [(PERCENT_U8, ("uint8", "float64", dw), fn, (2, 4)) for fn in FOUR]
+        runs += [(PERCENT_U8, ("int64", "float32", dw), fn, (2, 4)) for fn in FOUR[:2]]
+    runs += [(INF_CEILING, None, fn, (2, 4)) for fn in FOUR] + [(INF_LOGIT, None, fn, (6,)) for fn in FOUR]
+    for (f, o, w), dts, (functional, solver, q, weighted), shape in runs:
+        ww = list(w) if (weighted and w is not None) else None
+        if model:
+            check_fit(ctx, M, rng, 9, list(f), list(o), ww, functional, solver, q, shape, False, dtypes=dts)
+        else:
+            oracle_fit(ctx, M, rng, list(f), list(o), ww, dts, functional, solver, q, shape)
+    ctx.count("dtype_corpus", len(runs))
 
 
 def _num(x):
     if x is None:
         return None
     if isinstance(x, str):
-        return float("nan") if x == "nan" else float(Fraction(x))
+        return float(x) if x in ("nan", "inf", "-inf") else float(Fraction(x))
     return float(x)
 
 
@@ -869,6 +1215,10 @@ def run(ctx):
         if not ctx.time_left():
             break
         quantile_case(ctx, M, rng)
+    for _ in range(ctx.n(60, 2000)):
+        if not ctx.time_left():
+            break
+        infinite_quantile_case(ctx, M, rng)
     for _ in range(ctx.n(300, 8000)):
         if not ctx.time_left():
             break
